@@ -160,15 +160,98 @@ def main(run: common.Run):
     if not only or "WIDTH" in only or only & set(OPC):
         reduced_width(run, pend, ctx, tier, only)
 
+    # Route P: the concrete fast paths over all 256-bit ints (CrossHair, parallel subprocesses, started before the
+    # external solver answers are drained)
+    route_p = None
+    if not only or "P" in only:
+        route_p = start_route_p(run, tier)
+
     # external portfolio answers for what z3 in-process left open
     for key, r in pend.results():
         run.note_solver(r)
         conclude(run, key, r, ctx.pop(key))
     pend.close()
+    if route_p is not None:
+        finish_route_p(run, route_p)
     run.extra["cells"] = ncell
     run.extra["rule"] = ("cell = (opcode, operand representation tuple) run through the real SEVM; obligation = "
                          "validity query impl==spec (or aux-constraint validity) decided by the solver portfolio; "
                          "distinct_nontrivial counts decided obligations with >=1 symbolic operand")
+
+
+# ---------------------------------------------------------------------------
+def start_route_p(run, tier):
+    import tempfile
+    import threading
+
+    from lib import chx
+
+    harness = os.path.join(os.path.dirname(os.path.dirname(os.path.abspath(__file__))), "lib", "c06_chx_harness.py")
+    err = chx.ensure_venv()
+    if err:
+        run.inconc("P/concrete", "setup", err)
+        return None
+    conds = chx.conditions(harness)
+    names = ["add_256", "sub_256", "mul_256", "div_256", "mod_256", "addmod_256", "mulmod_256", "not_256", "byte_256", "truncation"]
+    if tier == "thorough":
+        names += ["shl_256", "shr_256", "exp_small"]
+    tmpdir = tempfile.mkdtemp(prefix="verif_c06p_")
+    twin_file = chx.make_twin(harness, tmpdir)
+    twins = chx.conditions(twin_file)
+    groups = []
+    for n in names:
+        groups.append(conds[n])
+    for n in names[:3] if tier == "quick" else names:
+        t = twins[n]
+        t.twin = True
+        groups.append(t)
+    box = {}
+    timeout = 60 if tier == "quick" else 300
+
+    def work():
+        box["res"] = chx.run_many(groups, timeout, jobs=5)
+
+    th = threading.Thread(target=work, daemon=True)
+    th.start()
+    return dict(th=th, box=box, groups=groups, harness=harness, tmpdir=tmpdir, timeout=timeout)
+
+
+def finish_route_p(run, rp):
+    import shutil
+
+    from lib import chx
+
+    rp["th"].join(timeout=rp["timeout"] * 6 + 300)
+    res = rp["box"].get("res")
+    try:
+        if res is None:
+            run.inconc("P/concrete", "all", "CrossHair conditions did not finish")
+            return
+        for c, v in zip(rp["groups"], res):
+            name = c.name + ("/reachability-twin" if c.twin else "")
+            if c.twin:
+                # the twin (post: False) must be refuted, otherwise the harness is vacuous
+                if v.status == "counterexample":
+                    run.ok("P/concrete", name, nontrivial=False)
+                elif v.status == "confirmed":
+                    run.harness_error(f"route P harness {c.name} is vacuous (post: False confirmed)")
+                else:
+                    run.inconc("P/concrete", name, f"twin: {v.status} {v.message[:80]}")
+                continue
+            if v.status == "confirmed":
+                run.ok("P/concrete", name)
+            elif v.status == "counterexample" and v.call:
+                r = chx.replay(rp["harness"], v.call)
+                if r.get("reproduced"):
+                    run.violation("P/concrete", f"concrete/{c.name.split('_')[0].upper()}",
+                                  f"concrete fast path: {v.call} does not give the EVM result ({r.get('detail') or r.get('raised')})",
+                                  {"call": v.call, "replay": r})
+                else:
+                    run.inconc("P/concrete", name, f"counterexample {v.call} does not reproduce under /venv ({r})"[:300])
+            else:
+                run.inconc("P/concrete", name, f"{v.status}: {v.message[:100]}")
+    finally:
+        shutil.rmtree(rp["tmpdir"], ignore_errors=True)
 
 
 # ---------------------------------------------------------------------------
